@@ -34,7 +34,7 @@ _ASAN = re.compile(r"ERROR: (AddressSanitizer|LeakSanitizer): ([A-Za-z0-9_-]+)")
 _ASSERT = re.compile(r": ([A-Za-z0-9_]+): Assertion `(.*)' failed")
 _UBSAN = re.compile(r"([A-Za-z0-9_./-]+):(\d+):(\d+): runtime error: (.*)")
 _MSAN = re.compile(r"WARNING: MemorySanitizer: ([A-Za-z0-9_-]+)")
-_FRAME = re.compile(r"#\d+ 0x[0-9a-f]+ in ([A-Za-z0-9_.]+) (\S+?):(\d+)")
+_FRAME = re.compile(r"#\d+ (?:0x[0-9a-f]+ in )?([A-Za-z0-9_.]+) (\S+?):(\d+)")
 
 
 def _first_lib_frame(text):
@@ -323,7 +323,7 @@ def execute(spec, tier, seed, only_case=None):
             ix, (binp, run, sd, lo, hi) = ix_job
             run_chunk(binp, run, sd, lo, hi, os.path.join(outdir, "%s-%d" % (run["name"], ix)), res, prop)
 
-        with ThreadPoolExecutor(max_workers=NWORK) as ex:
+        with ThreadPoolExecutor(max_workers=min(NWORK, spec.get("jobs", NWORK))) as ex:
             list(ex.map(work, enumerate(jobs)))
 
         # TSan verdicts
